@@ -992,6 +992,18 @@ impl TypedExpr {
                             continue;
                         }
                         if n < bits {
+                            // The operand is evaluated once and bound to a temporary (whose name
+                            // is not a valid identifier), so that a block with assignments or
+                            // failing operations inside the operand is not repeated n times:
+                            env.push();
+                            let operand = y.compile(prg, env, circuit);
+                            let tmp = "<mul operand>".to_string();
+                            env.let_in_current_scope(tmp.clone(), operand);
+                            let y = Box::new(Expr {
+                                inner: ExprEnum::Identifier(tmp),
+                                meta: y.meta,
+                                ty: y.ty.clone(),
+                            });
                             let mut expr = y.clone();
                             for _ in 0..n - 1 {
                                 expr = Box::new(Expr {
@@ -1000,16 +1012,18 @@ impl TypedExpr {
                                     ty: ty.clone(),
                                 });
                             }
-                            if is_neg {
-                                return Expr {
+                            let product = if is_neg {
+                                Expr {
                                     inner: ExprEnum::UnaryOp(UnaryOp::Neg, expr),
                                     meta,
                                     ty: ty.clone(),
                                 }
-                                .compile(prg, env, circuit);
+                                .compile(prg, env, circuit)
                             } else {
-                                return expr.compile(prg, env, circuit);
-                            }
+                                expr.compile(prg, env, circuit)
+                            };
+                            env.pop();
+                            return product;
                         }
                     }
                 }
